@@ -91,7 +91,7 @@ def badTy : Ty := ⟨"?", 0, 0⟩
 /-- type of `e.f` when `e : t` (`fieldType` in struct_type.go) -/
 def projTy1 (st : StructTable) (t : Ty) (f : String) : Ty :=
   match fieldTy st t.base f with
-  | none => badTy
+  | none => { t with base := "?" }
   | some ft =>
     if t.mapDim = 0 then { ft with arrDim := ft.arrDim + t.arrDim }
     else ⟨ft.base, t.mapDim + ft.arrDim, t.arrDim⟩
